@@ -38,7 +38,25 @@ class C12(vlib.PropertyCheck):
 
     MANIFEST = dict(
         technique='Rocq theorems about an executable Gallina model of the scanners + extracted-model/implementation correspondence check',
-        text='(filled in below)',
+        text=('Rocq theorems (all Qed, closed under the global context) about Gallina mirrors of spiftool_split, the scanner and '
+              'trimming of spif_tok_eval, spiftool_join, spiftool_get_word, spiftool_get_pword and spiftool_num_words, with every read '
+              'and write bounds-checked: for every NUL-free byte string s, every delimiter set d (NULL or any string) and whatever '
+              'follows the terminator, split d s = tokens d s and tok_eval d s = map trim (tokens d s), where tokens is a separate '
+              'one-pass state machine for the quoting grammar (C12_split_is_tokens, C12_tok_is_tokens_trimmed, C12_split_tok_agree); '
+              'join is the separator-interleaved concatenation in an exactly sized block and split d (join sep ts) = ts for plain '
+              'tokens and a non-empty separator of delimiter characters (C12_join_exact, C12_join_split_round_trip); num_words s = '
+              'length (words s), get_word i s is the i-th element of words s for every 1 <= i <= num_words s, get_pword i s = '
+              'pword_spec i s for every i (C12_num_words_counts_words, C12_get_word_is_ith_word, C12_get_pword_points_at_ith_ws_word); '
+              'no function faults on the block that holds exactly s and its terminator, for every s including a final backslash and '
+              'unbalanced quotes (C12_scanners_stay_inside). Nothing is left _partial. Not modelled: the str/list objects that hold '
+              'tok\'s tokens (property C01/C02; tokens are byte lists, trimmed as the repaired spif_str_trim does), tok\'s '
+              'configurable quote/escape members (defaults only), get_word results outside 1..n other than index 0 (left open by the '
+              'property; the model follows the code and the check compares them at level B). The model is tied to the current tree by '
+              'running its extracted OCaml form and the ASan/UBSan build of src/strings.c, src/tok.c on the same cases: every string '
+              'over {a, b, space, tab, \', ", \\, :} up to length 5 (quick) / 7 (thorough) through split and tok with the delimiter sets '
+              '{NULL, ":", " :", "ab"} and through num_words/get_word/get_pword for all indices 0..n+1, random strings up to 300 bytes '
+              'with further delimiter sets, join and join-then-split cases, and the 65536-token boundary of split; the driver also '
+              'compares the model with the extracted specification on every case.'),
         design_ref='DESIGN.md section 7, C12')
 
     EXH_QUICK = 5
@@ -48,9 +66,9 @@ class C12(vlib.PropertyCheck):
     def fixed_cases(self, rng, tier):
         cases = []
         # the 65536-token boundary of split's token counter (specification only on the model side)
-        cases.append('splitbig N 6120 65537')
+        # (65536 itself is in corpus/C12 and runs every time)
         if tier == 'thorough':
-            cases += ['splitbig N 6120 65535', 'splitbig N 6120 65536', 'splitbig 3a 3a61 65537']
+            cases += ['splitbig N 6120 65535', 'splitbig N 6120 65537', 'splitbig 3a 3a61 65537']
         # join: every list of up to 3 tokens over a small token set x separators; NULL and empty array
         toks = [[], [0x61], [0x61, 0x62], [0x20], [0x22], [0x5c], [0x3a, 0x61]]
         seps = ['N', '-', '3a', '20', '3a20', '6162']
